@@ -1624,16 +1624,61 @@ class AsType(Elemwise):
             meta = clear_known_categories(meta)
         return meta
 
+    def _cast_preserves_values(self, columns):
+        # int/bool/float -> an at least as wide float keeps every comparison
+        before = self.frame._meta
+        after = self._meta
+        if before.ndim == 1:
+            pairs = [(before.dtype, after.dtype)]
+        else:
+            pairs = [(before.dtypes[c], after.dtypes[c]) for c in columns]
+        return all(
+            isinstance(a, np.dtype)
+            and isinstance(b, np.dtype)
+            and a.kind in "biuf"
+            and b.kind == "f"
+            and b.itemsize >= a.itemsize
+            for a, b in pairs
+        )
+
+    def _predicate_reads_cast_columns(self, predicate):
+        # The filter may only move below the cast if the predicate gives the
+        # same answer on the un-cast data
+        dtypes = self.operand("dtypes")
+        cast = set(dtypes) if isinstance(dtypes, dict) else None
+        if self._cast_preserves_values(
+            [c for c in self.frame.columns if cast is None or c in cast]
+            if self.frame._meta.ndim > 1
+            else []
+        ):
+            return False
+        stack = [predicate]
+        while stack:
+            e = stack.pop()
+            if not isinstance(e, Expr):
+                continue
+            if isinstance(e, Projection) and e.frame._name == self._name:
+                if cast is None or cast & set(_convert_to_list(e.operand("columns"))):
+                    return True
+                continue
+            if e._name == self._name:
+                return True
+            stack.extend(e.dependencies())
+        return False
+
     def _simplify_up(self, parent, dependents):
-        if isinstance(parent, Filter) and self._filter_passthrough_available(
-            parent, dependents
+        if (
+            isinstance(parent, Filter)
+            and self._filter_passthrough_available(parent, dependents)
+            and not self._predicate_reads_cast_columns(parent.predicate)
         ):
             return self._filter_simplification(parent)
         if isinstance(parent, Projection):
             dtypes = self.operand("dtypes")
             columns = determine_column_projection(self, parent, dependents)
             if isinstance(dtypes, dict):
-                dtypes = {key: val for key, val in dtypes.items() if key in columns}
+                wanted = _convert_to_list(columns)
+                dtypes = {key: val for key, val in dtypes.items() if key in wanted}
                 if not dtypes:
                     return type(parent)(self.frame, *parent.operands[1:])
             if isinstance(columns, list):
